@@ -871,6 +871,11 @@ class Interp:
         if isinstance(v, AFin):
             v2 = self.simp_fin(v)
             if isinstance(v2, AFin):
+                truths = [self.const_truth(t) for t in v2.table]
+                if None not in truths:
+                    if len(set(truths)) == 1:
+                        return truths[0]                  # every selected value has the same truth value (members of an Enum ...)
+                    v2 = AFin(v2.atoms, truths)
                 if all(t is True or t is False for t in v2.table):
                     # a truth value that is an AFFINE function of a few input bits (parity of a masked word): one linear decision
                     b = fin_to_bit(v2)
@@ -913,6 +918,21 @@ class Interp:
         if isinstance(v, (ATable, AView)):
             raise Abort("truth value of array")
         return bool(v)
+
+    def const_truth(self, t):
+        """bool(t) of a constant value of the analysed program, None when it is not known here"""
+        if t is None or isinstance(t, (bool, int, float, str, bytes, bytearray, tuple, list, dict, set, frozenset)):
+            return bool(t)
+        if isinstance(t, EnumMember):
+            for ci in self.repo.all_classes():
+                if ci.name == t.cls and self.repo.is_enum(ci):
+                    mro = self.repo.mro(ci)
+                    if any(m in c.methods for c in mro for m in ("__bool__", "__len__")):
+                        return None
+                    mixed = any(b.split(".")[-1] in ("IntEnum", "IntFlag", "Flag", "StrEnum", "int", "str", "bytes") for c in mro for b in (ast.unparse(x) for x in c.node.bases))
+                    return bool(t.value) if mixed else True
+            return None
+        return None
 
     def _is_fn_form(self, f) -> bool:
         """does the form mention an uninterpreted-function atom?  (nothing is learnt about those by guessing their value)"""
